@@ -26,13 +26,14 @@ class Ctx:
     scratch: object
     broken: list
     known_seen: set = field(default_factory=set)
+    scale: int = 0          # 0: THOROUGH_SCALE; the quick tier escalated by the source tie uses 1
 
     def n(self, quick, thorough):
         """size of a stream in the quick / thorough tier; counts (not enumeration bounds) are scaled
         up further in the thorough tier (THOROUGH_SCALE)"""
         if not self.thorough:
             return quick
-        return thorough * THOROUGH_SCALE if thorough >= 100 else thorough
+        return thorough * (self.scale or THOROUGH_SCALE) if thorough >= 100 else thorough
 
 
 # ------------------------------------------------------------------ helpers
@@ -1650,11 +1651,31 @@ def run_C16(ctx: Ctx) -> Result:
                 p_ind = 0.5 if st_ and st_[0] not in "#\"`" else (0.25 if st_ and st_[0] in "\"`" else 0.0)
                 ind.append((rng.choice([" ", "  ", "\t ", "\u00a0 "]) if rng.random() < p_ind else "") + x)
             cm_ = rng.choice(["# inserted\n", "  #x \t\n", "#\n", "\t# language: fr\n", "# @t | Given \"\"\"\r\n", " \u00a0#é😀\n"])
-            reqs.append(driver.request("layoutok", stop_, "en", src, "".join(ind), cm_))
-            meta_.append((src, stop_, phys, ind, cm_))
+            # a variant in which doc strings move AS BLOCKS (Props/C16Doc7): the opening delimiter and every line up to
+            # the closing one get the same NUMBER of blanks (any blanks), the closing delimiter any amount; other
+            # structural-looking lines now and then
+            blk, open_, k_blk = [], None, 0
+            for x in phys:
+                st_ = x.lstrip()
+                if open_ is None:
+                    if st_.startswith('"""') or st_.startswith("```"):
+                        open_ = st_[:3]
+                        k_blk = rng.choice([0, 1, 2, 2, 3, 5])
+                        blk.append("".join(rng.choice([" ", " ", "\t", "\u00a0"]) for _ in range(k_blk)) + x)
+                    else:
+                        p_b = 0.2 if st_ and st_[0] not in "#" else 0.0
+                        blk.append((rng.choice([" ", "  ", "\t "]) if rng.random() < p_b else "") + x)
+                elif st_.startswith(open_):
+                    kc_ = k_blk if rng.random() < 0.6 else rng.choice([0, 1, 4])
+                    blk.append(" " * kc_ + x)
+                    open_ = None
+                else:
+                    blk.append("".join(rng.choice([" ", " ", "\t", "\u3000"]) for _ in range(k_blk)) + x)
+            reqs.append(driver.request("layoutok", stop_, "en", src, "".join(ind), cm_, "".join(blk)))
+            meta_.append((src, stop_, phys, ind, cm_, blk))
     outs_ = driver.batch(reqs) if reqs else []
-    n_blank = n_ind = n_cm = 0
-    for (src, stop_, phys, ind, cm_), m_ in zip(meta_, outs_):
+    n_blank = n_ind = n_cm = n_blk = n_cm_b2 = 0
+    for (src, stop_, phys, ind, cm_, blk), m_ in zip(meta_, outs_):
         base_o = outcome(src, stop_)
         ks = [k_ for k_ in m_.get("blank", []) if k_ < len(phys) or src.endswith("\n") or not src]
         if src not in explicit:
@@ -1683,9 +1704,10 @@ def run_C16(ctx: Ctx) -> Result:
                 want = {**want, "ok": {**want["ok"], "comments": [c for c in cs_ if c["location"]["line"] <= k_] + [newc] + [c for c in cs_ if c["location"]["line"] > k_]}}
             got = outcome(t, stop_)
             n_cm += 1
+            n_cm_b2 += int(k_ not in m_.get("comment2", []))
             if got != want:
                 res.fail("metamorphic", {"source": src, "stop": stop_, "transform": f"theorem:comment-line-after-{k_}-lines", "transformed": t}, got, want,
-                         f"C16_comment_line_text2 applies (after {k_} lines the model builds a comment and stays, or opens the description the next line continues) but the implementation's outcome is not "
+                         f"C16_comment_line_text3 applies (after {k_} lines the model builds a comment and stays, or opens the description and the next line is not blank) but the implementation's outcome is not "
                          f"the original with later lines moved down by one and exactly this comment added: {first_diff(got, want)}")
         if m_.get("indent") or m_.get("indent2"):
             t = "".join(ind)
@@ -1697,6 +1719,18 @@ def run_C16(ctx: Ctx) -> Result:
                 res.fail("metamorphic", {"source": src, "stop": stop_, "transform": "theorem:indent", "transformed": t}, got, want,
                          "C16_indent_document_check / C16_indent_closing_delimiter_document_check applies (every moved line was built as a keyword / step / tag / row / blank line or a closing delimiter) but the "
                          f"implementation's outcome is not the original with the columns of the moved lines shifted: {first_diff(got, want)}")
+        if m_.get("indent3") and blk != phys:
+            t = "".join(blk)
+            w_ = [len(a_) - len(b_) for a_, b_ in zip(blk, phys)]
+            want = rename(base_o, lambda l: l, lambda l, c: c + (w_[l - 1] if 0 < l <= len(w_) else 0))
+            got = outcome(t, stop_)
+            n_blk += 1
+            if got != want:
+                res.fail("metamorphic", {"source": src, "stop": stop_, "transform": "theorem:indent-docstring-block", "transformed": t}, got, want,
+                         "C16_indent_docstring_block_document_check applies (doc strings moved as blocks; other moved lines were built as keyword / step / tag / row / "
+                         f"blank / delimiter lines) but the implementation's outcome is not the original with the columns of the moved lines shifted: {first_diff(got, want)}")
+    res.stats["theorem_driven_block_indentations"] = n_blk
+    res.stats["theorem_driven_comment_insertions_after_keyword_line_b2"] = n_cm_b2
     res.stats["theorem_driven_blank_insertions"] = n_blank
     res.stats["theorem_driven_indentations"] = n_ind
     res.stats["theorem_driven_comment_insertions"] = n_cm
@@ -1983,7 +2017,12 @@ def run_C17(ctx: Ctx) -> Result:
         pth = os.path.join(d_, f"s{k}.feature")
         open(pth, "wb").write(raw)
         paths.append((pth, raw.decode("utf8")))
-    for (pth, want), ev in zip(paths, SourceEvents([p for p, _ in paths]).enum()):
+    paths = paths + paths[:2] + paths[:1]      # a path may be given more than once: every occurrence is a source, in the order given
+    evs_ = list(SourceEvents([p for p, _ in paths]).enum())
+    if len(evs_) != len(paths) or [e.get("source", {}).get("uri") for e in evs_] != [p for p, _ in paths]:
+        res.fail("file", {"paths": [os.path.basename(p) for p, _ in paths]}, [os.path.basename(str(e.get("source", {}).get("uri"))) for e in evs_],
+                 [os.path.basename(p) for p, _ in paths], "SourceEvents does not yield one source envelope per given path, in the order given")
+    for (pth, want), ev in zip(paths, evs_):
         res.note({"file_text": want}, True)
         got = ev["source"]
         if got.get("data") != want or got.get("uri") != pth or got.get("mediaType") != "text/x.cucumber.gherkin+plain":
@@ -1995,12 +2034,24 @@ def run_C17(ctx: Ctx) -> Result:
         srcs = [(f"u{k}", rng.choice(extra) if rng.random() < 0.1 else gens.structured(rng) if rng.random() < 0.6 else gens.noisy(rng))
                 for k in range(rng.randrange(1, 4))]
         srcs = [(u, d) for u, d in srcs if not impl.is_existing_path(d)]
-        out = impl.stream(opts, srcs)
-        case = {"options": opts, "sources": srcs}
+        stop = rng.random() < 0.25
+        out = impl.stream(opts, srcs, stop=stop)
+        case = {"options": opts, "sources": srcs, "stop": stop}
         res.note(case, True)
-        for (uri, data), envs in zip(srcs, out):
+        # C17_stop_mode_accepted / _rejected: a stop-mode stream = the collecting stream with the error
+        # envelopes of a rejected source cut down to the first (ids are compared up to the offset a
+        # shorter rejected run leaves: only envelope kinds, messages and locations here)
+        coll = impl.stream(opts, srcs) if stop else None
+        for k_, ((uri, data), envs) in enumerate(zip(srcs, out)):
             bad = None
             kinds = [next(iter(e)) for e in envs]
+            if stop and coll is not None:
+                ck = [next(iter(e)) for e in coll[k_]]
+                if ck and all(k == "parseError" for k in ck):
+                    if envs != coll[k_][:1]:
+                        bad = "stop-mode stream: a rejected source must yield exactly the first parseError of the collecting stream"
+                elif kinds != ck:
+                    bad = f"stop-mode stream: envelope kinds {kinds[:6]} differ from the collecting stream's {ck[:6]}"
             if kinds and all(k == "parseError" for k in kinds):
                 if any(e["parseError"]["source"]["uri"] != uri for e in envs):
                     bad = "parseError with a different uri"
@@ -2023,7 +2074,7 @@ def run_C17(ctx: Ctx) -> Result:
                 if errs:
                     bad = "envelope shape: " + "; ".join(errs[:3])
             if bad:
-                res.fail("stream", {"options": opts, "sources": [(uri, data)]}, kinds, "well-formed messages in order", bad)
+                res.fail("stream", {"options": opts, "sources": [(uri, data)], "stop": stop}, kinds, "well-formed messages in order", bad)
     return res
 
 
@@ -2081,6 +2132,34 @@ def run_C18(ctx: Ctx) -> Result:
             if both != list(range(1, nl + 2)):
                 res.fail("parse", case, {"built": bl, "unexpected": unexpected}, list(range(1, nl + 2)),
                          "a line was neither built nor reported as unexpected, or both")
+    # Model/Formatter.lean (parseWithF): the real Parser(TokenFormatterBuilder()) vs the model of the same run — the
+    # listing of an accepted run, or the exact error list; with this builder a ragged table is NOT an error
+    def fmt_impl(src_, stop_):
+        p_ = impl.Parser(impl.TokenFormatterBuilder())
+        p_.stop_at_first_error = stop_
+        try:
+            return {"ok": p_.parse(src_, impl.TokenMatcher())}
+        except impl.CompositeParserException as e_:
+            return {"errors": [impl.err_json(x) for x in e_.errors], "composite": True}
+        except impl.ParserError as e_:
+            return {"errors": [impl.err_json(e_)], "composite": False}
+        except Exception as e_:
+            return {"crash": f"{type(e_).__name__}: {e_}"}
+    ragged = ["Feature: f\n  Scenario: s\n    Given x\n      | a | b |\n      | c |\n    When y\n",
+              "Feature: f\n  Scenario Outline: s\n    Given <a>\n    Examples:\n      | a |\n      | 1 | 2 |\n      |\n  @t\n  Scenario: u\n",
+              "Feature: f\n  Scenario: s\n    Given x\n      | a |\n      | c | d |\n  oops\n      | e | f | g |\n"]
+    fdocs = [d_ for d_ in ragged + docs if len(d_) < 20000 and not impl.is_existing_path(d_)][: ctx.n(400, 3000)]
+    for stop_ in (False, True):
+        outs_f = driver.batch([driver.request("tokens", stop_, "en", d_) for d_ in fdocs])
+        for d_, m_ in zip(fdocs, outs_f):
+            i_ = fmt_impl(d_, stop_)
+            pm_ = {k_: v_ for k_, v_ in m_.items() if k_ in ("ok", "errors", "composite", "crash")}
+            res.note({"source": d_, "stop": stop_, "builder": "TokenFormatterBuilder"}, "ok" in i_)
+            res.stats["formatter_runs"] += 1
+            res.stats["formatter_accepted"] += int("ok" in i_)
+            if i_ != pm_:
+                res.fail("tokens", {"source": d_, "stop": stop_, "builder": "TokenFormatterBuilder"}, i_, pm_,
+                         "Parser(TokenFormatterBuilder()).parse differs from the model of the same run (Model/Formatter.lean): " + str(first_diff(i_, pm_)))
     # token listings of the acceptance corpus (finite comparison, a test)
     import glob
     n = 0
@@ -2214,7 +2293,7 @@ GEN_RULE = ("cases are documents from the acceptance corpus, a structured mostly
             "Unicode), line mutations of those, and noisy line soup; distinct = distinct canonical input; ")
 
 PROPS = {
-    "C01": dict(modules=["C01", "C01Linear", "C01NoCrash", "C01NoCrashAll", "C01Pipeline"], run=run_C01, translators=["parser_table", "dialects"],
+    "C01": dict(modules=["C01", "C01Linear", "C01NoCrash", "C01NoCrashAll", "C01Pipeline", "C17Stop"], run=run_C01, translators=["parser_table", "dialects"],
                 rule=GEN_RULE + "plus Unicode soup with surrogates/NUL and all strings ≤ L over a 10-symbol alphabet; non-trivial = any input"),
     "C02": dict(modules=["C02", "C02Tree", "C02Text", "C02Siblings"], run=run_C02, translators=["parser_table", "grammar", "siblings"], exhaustive=True,
                 rule="all line-kind sequences up to length L through the real Parser (stub matcher) vs the grammar reading (Spec.Sentence) and the table model's events; sampled longer ones; real-text documents; non-trivial = accepted"),
@@ -2237,9 +2316,9 @@ PROPS = {
                 rule=GEN_RULE + "both error modes; all line-kind sequences ≤ L for error positions; non-trivial = rejected"),
     "C15": dict(modules=["C15"], run=run_C15, exhaustive=True,
                 rule="all ordered pairs (thorough: triples) of 12 state-perturbing documents through one Parser+TokenMatcher, sampled longer histories, random schedules of 2–3 concurrent parses gated at TokenScanner.read; non-trivial = any"),
-    "C16": dict(modules=["C16", "C16Doc", "C16Doc2", "C16Doc3", "C16Doc3Tie", "C16Doc4", "C16Doc5"], run=run_C16, rule=GEN_RULE + "× {CRLF, final newline, trailing blanks, indentation, blank line, comment line} at sampled admissible positions; file loading; non-trivial = any"),
-    "C17": dict(modules=["C17"], run=run_C17, rule="sequences of 1–3 sources × 8 option combinations through one GherkinEvents; non-trivial = at least one envelope"),
-    "C18": dict(modules=["C18", "C18Order", "C18Pure"], run=run_C18, translators=["parser_table"], exhaustive=True,
+    "C16": dict(modules=["C16", "C16Doc", "C16Doc2", "C16Doc3", "C16Doc3Tie", "C16Doc4", "C16Doc5", "C16Doc6", "C16Doc7"], run=run_C16, rule=GEN_RULE + "× {CRLF, final newline, trailing blanks, indentation, blank line, comment line} at sampled admissible positions; file loading; non-trivial = any"),
+    "C17": dict(modules=["C17", "C17Stop"], run=run_C17, rule="sequences of 1–3 sources × 8 option combinations through one GherkinEvents; non-trivial = at least one envelope"),
+    "C18": dict(modules=["C18", "C18Order", "C18Pure", "C18Listing"], run=run_C18, translators=["parser_table"], exhaustive=True,
                 rule="all tag/comment/blank runs ≤ L before Examples/Scenario/Rule/unexpected lines as real text, sampled longer arrangements, corpus token listings; non-trivial = any"),
     "C19": dict(modules=["C19"], run=run_C19, translators=["dialects"], exhaustive=True,
                 rule="complete enumeration dialect × keyword × header depth 0–7 / bullet × indentation through the real Markdown matcher; table indentation 0–8; tag lines; non-trivial = matched"),
